@@ -219,6 +219,11 @@ FE_SYMBOLS = [H.B(2, 1), H.B(1, 2, fee="1/4"), H.B(3, 1, fee="1/2"), H.E(2, 1), 
 FE_FIRST = [s for s in FE_SYMBOLS if s[0] in ("B", "E")]
 
 
+# lots of three price ranks bought on three days, then one sale in each of 2020, 2021 and 2022: every sale has >= 2 open lots that the four
+# methods rank differently (used by the phase that reads the schedule back from a config file)
+CONFIG_SCHEDULE_HISTORY: History = ((H.B(2, 2), "="), (H.B(3, 2), "d"), (H.B(1, 2), "d"), (H.S(1), "d"), (H.S(1), "y"), (H.S(1), "y"))
+
+
 def plan(tier: str) -> List[Dict[str, Any]]:
     """List of exploration phases: each is enumerated level by level."""
     singles = single_schedules()
@@ -232,6 +237,7 @@ def plan(tier: str) -> List[Dict[str, Any]]:
             {"name": "sheet order reversed", "schedules": singles, "steps": ("=", "d"), "depth": 3, "dev": 0, "group": 4, "row_order": "reverse"},
             {"name": "two-year schedules across New Year, one transaction in another UTC offset", "schedules": two, "steps": ("=", "d"), "depth": 3, "dev": "newyear", "group": 3,
              "from_depth": 2},
+            {"name": "steps of 250 ms (same second), sheet order reversed", "schedules": singles, "steps": ("ms", "d"), "depth": 3, "dev": 0, "group": 4, "row_order": "reverse"},
             {"name": "front end: crypto-fee acquisitions through parse_ods", "schedules": singles, "steps": ("=", "d"), "depth": 3, "dev": "front", "group": 4, "symbols": "fe"},
             {"name": "front end, sheet order reversed", "schedules": singles, "steps": ("=", "d"), "depth": 3, "dev": "front", "group": 4, "symbols": "fe", "row_order": "reverse"},
         ]
@@ -245,6 +251,7 @@ def plan(tier: str) -> List[Dict[str, Any]]:
         {"name": "sheet order reversed, schedules", "schedules": two, "steps": ("=", "d", "y"), "depth": 3, "dev": 0, "group": 4, "row_order": "reverse"},
         {"name": "two-year schedules across New Year, one transaction in another UTC offset", "schedules": two, "steps": ("=", "d"), "depth": 4, "dev": "newyear", "group": 2,
          "from_depth": 2},
+        {"name": "steps of 250 ms (same second), sheet order reversed", "schedules": singles, "steps": ("ms", "d"), "depth": 4, "dev": 0, "group": 4, "row_order": "reverse"},
         {"name": "front end: crypto-fee acquisitions through parse_ods", "schedules": singles + two, "steps": ("=", "d", "y"), "depth": 4, "dev": "front", "group": 2, "symbols": "fe"},
         {"name": "front end, sheet order reversed", "schedules": singles, "steps": ("=", "d"), "depth": 4, "dev": "front", "group": 2, "symbols": "fe", "row_order": "reverse"},
     ]
@@ -260,6 +267,22 @@ def main(tier: str, budget_s: Optional[float] = None) -> int:
     total.merge(t2)
     info += i2
     complete = complete and c2
+    # the schedule as rp2_main gets it: written to a config file (every order of the lines), read back by the real Configuration
+    import itertools
+
+    from rp2verif.lotrun import config_schedule_worker, three_year_schedules, two_year_schedules
+
+    tcs = time.time()
+    cs_cases = [(sch, perm) for sch in two_year_schedules() + three_year_schedules() + [((2019, "fifo"), (2021, "lifo"), (2022, "fifo")), ((2019, "hifo"), (2021, "hifo"), (2022, "lofo"))]
+                for perm in itertools.permutations(range(len(sch)))]
+    ncs = common.NPROC * 2
+    cres, cdone = common.pmap(config_schedule_worker, [(__name__, cs_cases[i::ncs]) for i in range(ncs)], deadline=max(deadline, time.time() + 60))
+    for r in cres:
+        if r is not None:
+            total.merge(r)
+    complete = complete and cdone == ncs
+    info.append({"phase": "schedule read from a config file: every two- and three-year schedule x every order of the [accounting_methods] lines", "cases": len(cs_cases),
+                 "executions": total.get("config_schedule_cases"), "wall_s": round(time.time() - tcs, 1)})
     new, matched = common.report(PROP, total.violations)
     coverage = {
         "states": total.get("states"),
